@@ -300,7 +300,7 @@ def run(ctx):
         emit(dict(kind='stb', sign='', mag='12', prefix=prefix, unit='B', system=system, return_int=rint))
     # seeded random magnitudes
     rng = ctx.rng('mags')
-    n = ctx.pick(12000, 600000)
+    n = ctx.pick(12000, 5000000)
     for i in range(n):
         k = rng.randrange(7)
         if k == 6:     # tiny fractional excess / deficit: the ceiling must not be rounded away
@@ -324,7 +324,7 @@ def run(ctx):
         emit(dict(kind='stb', sign=rng.choice(SIGNS), mag=mag, mag_ok=True,
                   prefix=rng.choice(ALL_PREFIXES), unit=rng.choice(UNITS), system=rng.choice(SYSTEMS),
                   return_int=rng.random() < 0.5))
-    for c in qemu_cases(ctx.rng('qemu'), ctx.pick(3000, 60000)):
+    for c in qemu_cases(ctx.rng('qemu'), ctx.pick(3000, 600000)):
         emit(c)
     rj = ctx.rng('qemu-json')
     for i in range(ctx.pick(200, 2000)):
